@@ -279,6 +279,29 @@ def check_reconstruct(case, ctx):
             if probs:
                 ctx.violation("reconstruct|malformed", "; ".join(probs), c)
                 break
+            if cfg in NON_SPANNING:
+                # the tree covers only part of the namespace: the rebuilt tree spans every taxon of
+                # the namespace, restricted to the source's leaves it is the source topology, and
+                # on a rooted tree every clade of the source - its whole leaf set included - is a clade
+                all_labels = sorted(bit)
+                tag = "rooted" if is_rooted else "unrooted"
+                if sorted(ref.leaves(s2[1])) != all_labels:
+                    ctx.violation("reconstruct|extra-taxa|leaves", "rebuilt tree has leaves %s, namespace has %s" % (ref.leaves(s2[1]), all_labels), c)
+                    break
+                ind = ref.induced(s2[1], set(labels))
+                if ind is None or ref.topology_key(ind, is_rooted) != ref_key:
+                    ctx.violation("reconstruct|extra-taxa|restricted-topology|%s" % tag,
+                                  "rebuilt %s from order %s, source %s" % (ref.to_newick(s2[1], False), list(perm), ref.to_newick(sn, False)), c)
+                    break
+                if is_rooted and frozenset(labels) not in ref.rooted_clades(s2[1]):
+                    ctx.violation("reconstruct|extra-taxa|source-leaf-set-not-a-clade|rooted",
+                                  "rebuilt %s from order %s, source %s: the leaves of the source tree no longer form a clade" % (ref.to_newick(s2[1], False), list(perm), ref.to_newick(sn, False)), c)
+                    break
+                if bool(s2[0]) != is_rooted:
+                    ctx.violation("reconstruct|rooting", "rebuilt tree is_rooted=%r, asked %r" % (s2[0], rooted), c)
+                    break
+                ctx.count("reconstructions_with_taxa_not_on_the_tree")
+                continue
             if sorted(ref.leaves(s2[1])) != sorted(labels):
                 ctx.violation("reconstruct|leaves", "rebuilt tree has leaves %s, namespace has %s" % (ref.leaves(s2[1]), labels), c)
                 break
@@ -301,6 +324,7 @@ def _trivial_mask(m, total):
 
 
 SPANNING = ("exact", "reversed", "removed_low")
+NON_SPANNING = ("extra_low", "extra_high", "sorted_after")
 
 
 BIG_PERMS = ["identity", "reversed", "rotated", "interleaved", "by-size-desc", "by-size-asc"]
@@ -474,7 +498,7 @@ def run_chunk(chunk, ctx):
         ctx.sample({"tree": ref.to_newick(ref.mk(shape), False), "rooted": rooted, "drawings": len(vs)}, 2)
         # reconstruction from the base drawing
         for r in rootings:
-            for cfg in SPANNING:
+            for cfg in SPANNING + NON_SPANNING:
                 check_reconstruct({"kind": "rec", "n": n, "shape": shape, "rooted": r, "ns": cfg, "perm": None,
                                    "limit": b["full_permutation_limit"]}, ctx)
     # compress for the parent: class -> lib_key -> {ref_key: witness}
